@@ -66,6 +66,8 @@ class Evaluator:
             return idx
         if idx[0] == "loopidx":
             return self.loops[idx[1]]["i"]
+        if idx[0] == "futidx":
+            return self.value(("fut", idx[1]))      # an element addressed by the value of another future
         raise ValueError(idx)
 
     def ref(self, op: tuple) -> Tuple[str, Any]:
@@ -219,6 +221,8 @@ class HostGen:
         self.n_xflush = 0
         self.kinds: set = set()
         self.flushed_futs: set = set()            # named futures that were defined at some flush (host has read them)
+        self.modified_futs: set = set()           # named futures some `add` has targeted (value may exceed 1)
+        self.index_futs: set = set()              # named futures used as the index of an array element
 
     def ok(self, kind: str) -> bool:
         if kind in self.avoid:
@@ -260,11 +264,12 @@ class HostGen:
             if lp["kind"] in ("foreach", "enumerate"):
                 cands.append(("elt", k))
         cands += self.loop_indexed_elements()
+        cands += self.future_indexed_elements()
         if allow_lit and (not cands or ch.flag(1, 3, "oplit")):
             return ("lit", ch.draw(3, "litv"))
         if not cands:
             return ("lit", ch.draw(3, "litv"))
-        return cands[ch.draw(len(cands), "opnd")]
+        return self._note_operand(cands[ch.draw(len(cands), "opnd")])
 
     def fut_operand(self) -> Optional[tuple]:
         cands = [r for r in self.all_defined()]
@@ -274,9 +279,10 @@ class HostGen:
             if lp["kind"] == "loop" and lp["form"] == "cb":
                 cands.append(("loopidx", k))
         cands += self.loop_indexed_elements()
+        cands += self.future_indexed_elements()
         if not cands:
             return None
-        return cands[self.ch.draw(len(cands), "fopnd")]
+        return self._note_operand(cands[self.ch.draw(len(cands), "fopnd")])
 
     def target(self) -> tuple:
         """Where a measurement result goes."""
@@ -357,6 +363,26 @@ class HostGen:
                     if d["full"] and d["len"] >= lp["n"]:
                         out.append(("arrfut", a, ("loopidx", k)))
         return out
+
+    def future_indexed_elements(self) -> List[tuple]:
+        """elements of fully-defined arrays (length >= 2) addressed by the value of a measurement future that no
+        `add` has touched (so its value is 0 or 1 whenever the element is accessed)"""
+        if not self.ok("future-indexed-element"):
+            return []
+        out = []
+        for r in self.all_defined():
+            if r[0] == "fut" and r[1] not in self.modified_futs:
+                for a in sorted(self.arrays):
+                    d = self.arrays[a]
+                    if d["full"] and d["len"] >= 2:
+                        out.append(("arrfut", a, ("futidx", r[1])))
+        return out
+
+    def _note_operand(self, r: tuple) -> tuple:
+        if r[0] == "arrfut" and isinstance(r[2], tuple) and r[2][0] == "futidx":
+            self.index_futs.add(r[2][1])      # from now on no `add` may target this future
+            self.kinds.add("future-indexed-element")
+        return r
 
     def body(self) -> List[tuple]:
         if self.ok("empty-body") and self.ch.flag(1, 12, "emptybody"):
@@ -523,12 +549,18 @@ class HostGen:
                 if lp["kind"] in ("foreach", "enumerate"):
                     cands.append(("elt", k))
             cands += self.loop_indexed_elements()
+            cands += self.future_indexed_elements()
+            cands = [r for r in cands if not (r[0] == "fut" and r[1] in self.index_futs)]
+            if not cands:
+                return []
             if "rewrite-after-read" in self.avoid:
                 # recorded finding: a Future the host has already read keeps its cached value
                 cands = [r for r in cands if not (r[0] == "fut" and r[1] in self.flushed_futs)]
                 if not cands:
                     return []
-            t = cands[ch.draw(len(cands), "addt")]
+            t = self._note_operand(cands[ch.draw(len(cands), "addt")])
+            if t[0] == "fut":
+                self.modified_futs.add(t[1])
             other = self.operand()
             if other[0] == "loopidx":
                 other = ("lit", 1)
